@@ -69,8 +69,13 @@ class Partition:
 
     def heal(self) -> None:
         """Remove only this partition's pairs, leaving others intact."""
-        self._network._partitioned_pairs -= self.pairs
-        self._network._directed_partitions -= self.directed_pairs
+        active = self._network._active_partitions
+        active[:] = [other for other in active if other is not self]
+        # A pair stays blocked while another active partition still covers it
+        still_pairs = {p for other in active for p in other.pairs}
+        still_directed = {p for other in active for p in other.directed_pairs}
+        self._network._partitioned_pairs -= self.pairs - still_pairs
+        self._network._directed_partitions -= self.directed_pairs - still_directed
         logger.info(
             "[%s] Selective partition healed: %d bidirectional + %d directed pairs",
             self._network.name,
@@ -106,6 +111,9 @@ class Network(Entity):
 
     # Directed partition state: set of (source, dest) tuples (asymmetric)
     _directed_partitions: set[tuple[str, str]] = field(default_factory=set, init=False)
+
+    # Partition handles that have not been healed (a pair may be covered by several)
+    _active_partitions: list[Partition] = field(default_factory=list, init=False)
 
     # Track all known entities for partition validation
     _known_entities: dict[str, Entity] = field(default_factory=dict, init=False)
@@ -242,11 +250,13 @@ class Network(Entity):
                 [e.name for e in group_b],
             )
 
-        return Partition(
+        handle = Partition(
             pairs=frozenset(bidirectional_pairs),
             directed_pairs=frozenset(directed_pairs),
             _network=self,
         )
+        self._active_partitions.append(handle)
+        return handle
 
     def heal_partition(self) -> None:
         """Remove all network partitions, restoring full connectivity."""
@@ -254,6 +264,7 @@ class Network(Entity):
         num_directed = len(self._directed_partitions)
         self._partitioned_pairs.clear()
         self._directed_partitions.clear()
+        self._active_partitions.clear()
         logger.info(
             "[%s] All partitions healed: %d bidirectional + %d directed pairs restored",
             self.name,
